@@ -14,7 +14,8 @@ SPEC = {
         ('K-update(delayed copied from winner)', 'update', '^update:slot-complete\\[delayed\\]'),
         ('K-next(delayed inherited)', 'next', '^fields:delayed'),
         ("_match_states(expanded = live entries due in this round)", 'match_states', r'^select:'),
-        ("non-emitting search continues only entries due in this round", 'ne_inner', r'^ne-inner:only-live')],
+        ("non-emitting search continues only entries due in this round", 'ne_inner', r'^ne-inner:only-live'),
+        ("match(with a width the new column is re-pruned at the end of every step)", 'match', r'^loop:(new-column|no-pruning)')],
     'bounded': [
         ('pruned-vs-unpruned-and-widening', suites.case_C07, 1500, 25000, RULE + '; ' + 'non-trivial = at least one candidate was postponed', '')],
 }
